@@ -334,6 +334,40 @@ func (m *ledgerMon) check(h uint32, b *BlockSpec, prevDump, dump []string, prevW
 			}
 		}
 	}
+	// C13: from 2.0 on a conversion into PEG is never executed
+	if h >= a.V20 {
+		for _, bb := range L.B {
+			if bb.exec != int64(h) {
+				continue
+			}
+			for _, t := range L.T[bb.hash] {
+				if t.action == 2 && t.toAsset == "PEG" {
+					m.violate("admission:peg-conversion-executed:"+eraOf(a, h), fmt.Sprintf("batch %s with a conversion into PEG was executed at height %d", bb.hash, h), h)
+				}
+			}
+		}
+	}
+	// C12: PEG's recorded price follows the pricing phase of the height
+	if rr := L.Rates[int64(h)]; len(rr) > 0 && h < a.PegFloat {
+		exp := new(big.Int)
+		if h >= a.PegPricing {
+			// (total capitalisation of the other assets) / (PEG supply), on the committed supply
+			sup := prev.Supply()
+			if ps := sup[int(fat2.PTickerPEG)]; ps != nil && ps.Sign() > 0 {
+				cap := new(big.Int)
+				for t, v := range sup {
+					if t == int(fat2.PTickerPEG) {
+						continue
+					}
+					cap.Add(cap, new(big.Int).Mul(v, new(big.Int).SetUint64(rr[fat2.PTicker(t).String()])))
+				}
+				exp.Div(cap, ps)
+			}
+		}
+		if got := new(big.Int).SetUint64(rr["PEG"]); got.Cmp(exp) != 0 && exp.IsUint64() {
+			m.violate("rates:peg-price:"+eraOf(a, h), fmt.Sprintf("PEG recorded at %v, the pricing phase of the height prescribes %v", got, exp), h)
+		}
+	}
 	// C16: bank rows
 	if row, ok := L.Bank[int64(h)]; ok {
 		if row[1] > row[0] {
@@ -390,12 +424,50 @@ func scenBank(rep *Report, tier string, seed int64) {
 			a := w.S.Acts
 			g := w.G
 			h := b.Height
+			if h == a.Pegnet+2 {
+				// deep pockets: the requests of a block can exceed the bank several thousand times
+				for i, u := range g.Users {
+					b.FCT = append(b.FCT, Burn(h, u.FA(), 2e13, 20+i))
+				}
+			}
+			if h == a.TxConv+2 {
+				for _, u := range g.Users {
+					if u.IsE && h < a.RCDE {
+						continue
+					}
+					b.TX = append(b.TX, g.Batch(h, u, []fat2.Transaction{Conversion(u.FA(), fat2.PTickerFCT, 1e12, fat2.PTickerUSD)}))
+				}
+			}
 			if h < a.OneWayFCT || h >= a.V20 {
 				return
 			}
 			if g.R.Intn(4) == 0 {
 				b.OPR = nil // ungraded block: the next rated block walks a window of several heights
 				w.Rep.Count("bank:ungraded")
+			}
+			// one tiny request per block: next to the large ones its share of the bank rounds to
+			// zero and everything has to come back as a refund
+			if u := g.Users[int(h)%len(g.Users)]; !(u.IsE && h < a.RCDE) {
+				if bal := w.Balance(u.FA(), fat2.PTickerUSD); bal > 10 {
+					b.TX = append(b.TX, g.Batch(h, u, []fat2.Transaction{Conversion(u.FA(), fat2.PTickerUSD, uint64(1+g.R.Intn(3)), fat2.PTickerPEG)}))
+					w.Rep.Count("bank:dust-request")
+				}
+			}
+			// a request that will be REJECTED when it executes: the same block also moves the
+			// funds it relies on (the transfer is applied at once, the request waits)
+			if g.R.Intn(3) == 0 {
+				for _, u := range g.Users {
+					if u.IsE && h < a.RCDE {
+						continue
+					}
+					if bal := w.Balance(u.FA(), fat2.PTickerFCT); bal > 1000 {
+						b.TX = append(b.TX,
+							g.Batch(h, u, []fat2.Transaction{Conversion(u.FA(), fat2.PTickerFCT, bal/2+1, fat2.PTickerPEG)}),
+							g.Batch(h, u, []fat2.Transaction{Transfer(u.FA(), fat2.PTickerFCT, fat2.AddressAmountTuple{Address: g.Users[0].FA(), Amount: bal/2 + 1})}))
+						w.Rep.Count("bank:request-rejected-later")
+						break
+					}
+				}
 			}
 			n := g.R.Intn(4)
 			for i := 0; i < n; i++ {
@@ -569,9 +641,10 @@ func runLedgerChainWith(rep *Report, seed int64, variant int, tier string, acts 
 				What: fmt.Sprintf("model and implementation disagree at height %d", h), Detail: []string{res.Diff, "impl: " + res.ImplMsg, "model: " + res.ModelAns},
 				Blocks: ChainJSON(run.Chain)})
 			rep.Disagree("lockstep:"+eraOf(s.Acts, h), res.Diff, path)
-			// the monitors still run on the implementation's dump: that is the search for a failing input
-			mon.check(h, b, prevDump, res.Dump, prevWinners, top, res.ImplOK)
-			return
+			// the search for a failing input goes on: the rest of the chain is applied by the
+			// implementation alone and the monitors keep evaluating its dumps
+			run.NoModel = true
+			rep.Count("continued-without-model")
 		}
 		mon.check(h, b, prevDump, res.Dump, prevWinners, top, res.ImplOK)
 		if !res.ImplOK {
@@ -619,7 +692,31 @@ func pagingCheck(rep *Report, run *Run, g *Gen, s Setup, seed int64) {
 		hash string
 		idx  int
 	}
+	dump, _ := DumpDB(run.D.DBPath)
+	L := ParseDump(dump)
+	// the actions an address takes part in, from the recorded actions themselves (sender,
+	// converter, payee or recipient of an output) — not from the lookup table the queries use
+	involves := func(addrHex string) map[key]bool {
+		out := map[key]bool{}
+		for hash, ts := range L.T {
+			for _, t := range ts {
+				hit := t.from == addrHex
+				for _, o := range t.outputs {
+					if o[0] == addrHex {
+						hit = true
+					}
+				}
+				if hit {
+					out[key{hash, int(t.idx)}] = true
+				}
+			}
+		}
+		return out
+	}
+	var expected map[key]bool
 	collect := func(what string, fetch func(off int) ([]pegnet.HistoryTransaction, int, error)) {
+		want := expected
+		expected = nil
 		seen := map[key]bool{}
 		total := -1
 		n := 0
@@ -650,6 +747,20 @@ func pagingCheck(rep *Report, run *Run, g *Gen, s Setup, seed int64) {
 			}
 		}
 		rep.Count("paging:queries")
+		if want != nil {
+			for k := range want {
+				if !seen[k] {
+					rep.Violate("paging:missing", fmt.Sprintf("%s: recorded action %s/%d involves the address but no page returns it", what, k.hash, k.idx), "")
+					break
+				}
+			}
+			for k := range seen {
+				if !want[k] {
+					rep.Violate("paging:unrelated", fmt.Sprintf("%s: action %s/%d is returned but does not involve the address", what, k.hash, k.idx), "")
+					break
+				}
+			}
+		}
 		if total >= 0 && n != total {
 			rep.Violate("paging:count", fmt.Sprintf("%s: count says %d, pages returned %d", what, total, n), "")
 		}
@@ -658,6 +769,7 @@ func pagingCheck(rep *Report, run *Run, g *Gen, s Setup, seed int64) {
 		a := u.FA()
 		for _, desc := range []bool{false, true} {
 			d := desc
+			expected = involves(hx(a[:]))
 			collect("address "+a.String(), func(off int) ([]pegnet.HistoryTransaction, int, error) {
 				return p.SelectTransactionHistoryActionsByAddress(&a, pegnet.HistoryQueryOptions{Offset: off, Desc: d})
 			})
